@@ -99,51 +99,9 @@ impl From<io::Error> for {ty} {{
 }}
 """
     cl = "#[derive(Debug)]\npub struct VIo;\n" + "".join(f"pub const {k}: usize = {val};\n" for k, val in (consts or {}).items() if isinstance(val, int))
-    # helper constructors with access to private fields
-    files["src/write.rs"] += """
-#[cfg(kani)]
-impl<const H: usize> Writer<H> {
-    /// verif: build a Writer over the modelled file exactly as `create` would leave it
-    pub(crate) fn verif_new(file: File, size: usize, start_offset: u64) -> Self {
-        let write_offset = start_offset;
-        let flushed_offset = FlushedOffset::new(write_offset);
-        let mut writer = BufWriter::with_capacity(WRITE_BUF_SIZE, file);
-        writer.seek(SeekFrom::Start(write_offset)).unwrap();
-        Writer { writer, size, write_offset, flushed_offset, dirty: false, compression_enabled: false }
-    }
-    pub(crate) fn verif_buffered(&self) -> usize { self.writer.buffer().len() }
-    pub(crate) fn verif_dirty(&self) -> bool { self.dirty }
-}
-"""
-    files["src/read.rs"] += """
-#[cfg(kani)]
-impl<const H: usize> Reader<H> {
-    /// verif: build a Reader over the modelled file exactly as `open(path, Some(flushed))` would
-    pub(crate) fn verif_new(file: File, flushed_offset: FlushedOffset) -> Self {
-        Reader {
-            file,
-            optimistic_buf: [0u8; RECORD_HEAD_SIZE + OPTIMISTIC_DATA_SIZE],
-            fallback_buf: [0u8; FALLBACK_BUF_SIZE],
-            read_ahead_buf: ReadAheadBuf::new(),
-            flushed_offset,
-            decompress_buf: Vec::new(),
-        }
-    }
-    pub(crate) fn verif_cache_range(&self) -> (u64, usize) { (self.read_ahead_buf.offset, self.read_ahead_buf.valid_len) }
-}
-#[cfg(kani)]
-pub(crate) const VERIF_OPTIMISTIC_DATA_SIZE: usize = OPTIMISTIC_DATA_SIZE;
-#[cfg(kani)]
-pub(crate) const VERIF_FALLBACK_BUF_SIZE: usize = FALLBACK_BUF_SIZE;
-#[cfg(kani)]
-pub(crate) const VERIF_READ_AHEAD_SIZE: usize = READ_AHEAD_SIZE;
-"""
+    # no helper constructors: harnesses build Writer/Reader through the real create()/open() (OpenOptions::open is stubbed),
+    # so a refactoring of private fields cannot break the harness
     files["src/lib.rs"] += """
-#[cfg(kani)]
-impl FlushedOffset {
-    pub(crate) fn verif_new(offset: u64) -> Self { FlushedOffset::new(offset) }
-    pub(crate) fn verif_set(&self, offset: u64) { self.set(offset) }
-}
 #[cfg(kani)]
 #[allow(unused, dead_code, static_mut_refs, unused_imports)]
 pub(crate) mod verif {
@@ -156,8 +114,8 @@ pub(crate) mod verif {
         if left:
             raise Inconclusive(f"harness template {h}: unfilled placeholders {sorted(set(left))}")
         (crate / "src" / f"verif_{i}.rs").write_text(txt)
-    rewrites.append("append: #[cfg(kani)] helper constructors Writer::verif_new / Reader::verif_new (same field values as create/open) "
-                    "and mod verif { " + ", ".join(harness_rel) + " }")
+    rewrites.append("append: #[cfg(kani)] mod verif { " + ", ".join(harness_rel) + " } (Writer/Reader are built through the real create()/open(); "
+                    "std::fs::OpenOptions::open is stubbed to return the modelled file)")
     for p, s in files.items():
         (crate / p).write_text(s)
     return {"rewrites": rewrites, "harness_file": None}
